@@ -44,7 +44,11 @@ use super::rd::*;
 //@@ include lemmas/json_grammar.rs
 }
 use jg::*;
-broadcast use {rdl::group_advance, ls::axiom_json_of_f64_is_number};
+broadcast use {rdl::group_advance, ls::axiom_json_of_f64_is_number, ls::axiom_text_of, jt::group_json_names};
+pub mod u8s {
+use vstd::prelude::*;
+//@@ include prelude/u8std.rs
+}
 pub mod ls {
 use vstd::prelude::*;
 use super::jt::*;
@@ -52,6 +56,8 @@ use super::jt::*;
 }
 use ls::*;
 
+use std::io::ErrorKind;
+//@@ file-consts src/json_parser.rs
 pub type IoError = std::io::Error;
 pub type Result<T> = std::result::Result<T, JsonParserError>;
 
@@ -99,6 +105,10 @@ pub open spec fn lex_post<T>(o: RView, n: RView, r: Result<T>) -> bool {
 // a value or a recoverable error has consumed at least one byte: the read loop always makes progress
 pub open spec fn progress<T>(o: RView, n: RView, r: Result<T>) -> bool { !is_io(r) ==> n.pending.len() < o.pending.len() }
 
+pub open spec fn value_kind(b: u8, v: JsonValue) -> bool {
+    if b == 0x74u8 { v == JsonValue::Boolean(true) } else if b == 0x66u8 { v == JsonValue::Boolean(false) } else if b == 0x6eu8 { v == JsonValue::Null }
+    else if b == 0x22u8 { v is String } else if b == 0x5bu8 { v is Array } else if b == 0x7bu8 { v is Object } else { (b == 0x2du8 || is_digit(b)) && v is Number }
+}
 pub trait JsonParser {
     spec fn rv(&self) -> RView;
 //@@ fn lex.t.next_json_value = src/json_parser.rs :: trait JsonParser :: fn next_json_value
@@ -110,6 +120,14 @@ pub trait JsonParser {
             // Ok(None) only at the true end of the input
             r is Ok && r->Ok_0 is None ==> final(self).rv().pending.len() == 0, // @tobl L1.eof
             !(r is Ok && r->Ok_0 is None) ==> progress(old(self).rv(), final(self).rv(), r), // @tobl L1.progress
+            // end of input is reported only when nothing but white space was left: no value is ever dropped silently
+            r is Ok && r->Ok_0 is None ==> ws_run(old(self).rv().pending) == old(self).rv().pending.len(), // @tobl L2.eof_only_ws
+            // a byte that cannot start a value is a recoverable error that consumes the white space before it and exactly that byte
+            ({ let p = old(self).rv().pending; let w = ws_run(p) as int;
+               !is_io(r) && at(p, w) is Some && !starts_value(at(p, w)->0) ==> r is Err && final(self).rv().pending.len() == p.len() - w - 1 }), // @tobl L2.resync
+            // the kind of value returned is the one its first byte announces
+            ({ let p = old(self).rv().pending; let w = ws_run(p) as int;
+               r is Ok && r->Ok_0 is Some ==> at(p, w) is Some && value_kind(at(p, w)->0, r->Ok_0->0) }), // @tobl L2.dispatch
         decreases old(self).rv().pending.len(), 2int,
 //@@ endfn
 }
@@ -121,12 +139,15 @@ pub trait JsonParserUtils {
 //@@ header
         requires old(self).rv2().ok, old(self).rv2().cur is Some,
         ensures lex_post(old(self).rv2(), final(self).rv2(), r), progress(old(self).rv2(), final(self).rv2(), r),
+            // Ok exactly consumes the first byte and the N expected bytes, which are the bytes that were there
+            r is Ok ==> final(self).rv2().pending.len() + N + 1 == old(self).rv2().pending.len() && bytes_at(old(self).rv2().pending, 1, chars@), // @tobl L2.word
 //@@ endfn
 //@@ fn lex.t.read_true = src/json_parser.rs :: trait JsonParserUtils :: fn read_true
 //@@ ret r
 //@@ header
         requires old(self).rv2().ok, old(self).rv2().cur is Some,
         ensures lex_post(old(self).rv2(), final(self).rv2(), r), progress(old(self).rv2(), final(self).rv2(), r),
+            r is Ok ==> final(self).rv2().pending.len() + 4 == old(self).rv2().pending.len(), // @tobl L2.word_len
             r is Ok ==> r->Ok_0 == JsonValue::Boolean(true), // @tobl L2.value
 //@@ endfn
 //@@ fn lex.t.read_false = src/json_parser.rs :: trait JsonParserUtils :: fn read_false
@@ -134,6 +155,7 @@ pub trait JsonParserUtils {
 //@@ header
         requires old(self).rv2().ok, old(self).rv2().cur is Some,
         ensures lex_post(old(self).rv2(), final(self).rv2(), r), progress(old(self).rv2(), final(self).rv2(), r),
+            r is Ok ==> final(self).rv2().pending.len() + 5 == old(self).rv2().pending.len(), // @tobl L2.word_len
             r is Ok ==> r->Ok_0 == JsonValue::Boolean(false), // @tobl L2.value
 //@@ endfn
 //@@ fn lex.t.read_null = src/json_parser.rs :: trait JsonParserUtils :: fn read_null
@@ -141,6 +163,7 @@ pub trait JsonParserUtils {
 //@@ header
         requires old(self).rv2().ok, old(self).rv2().cur is Some,
         ensures lex_post(old(self).rv2(), final(self).rv2(), r), progress(old(self).rv2(), final(self).rv2(), r),
+            r is Ok ==> final(self).rv2().pending.len() + 4 == old(self).rv2().pending.len(), // @tobl L2.word_len
             r is Ok ==> r->Ok_0 == JsonValue::Null, // @tobl L2.value
 //@@ endfn
 //@@ fn lex.t.read_array = src/json_parser.rs :: trait JsonParserUtils :: fn read_array
@@ -149,6 +172,9 @@ pub trait JsonParserUtils {
         requires old(self).rv2().ok, old(self).rv2().cur is Some,
         ensures lex_post(old(self).rv2(), final(self).rv2(), r), progress(old(self).rv2(), final(self).rv2(), r),
             r is Ok ==> r->Ok_0 is Array, // @tobl L2.kind
+            // "[" ws "]" is the empty array (RFC 8259: white space is allowed after begin-array)
+            ({ let p = old(self).rv2().pending; let w = ws_run(from(p, 1)) as int;
+               !is_io(r) && at(p, 1 + w) == Some(0x5du8) ==> r is Ok && r->Ok_0 == json_array(Seq::empty()) && final(self).rv2().pending.len() == p.len() - (w + 2) }), // @tobl L2.empty_array
         decreases old(self).rv2().pending.len(), 1int,
 //@@ endfn
 //@@ fn lex.t.read_object = src/json_parser.rs :: trait JsonParserUtils :: fn read_object
@@ -157,6 +183,8 @@ pub trait JsonParserUtils {
         requires old(self).rv2().ok, old(self).rv2().cur is Some,
         ensures lex_post(old(self).rv2(), final(self).rv2(), r), progress(old(self).rv2(), final(self).rv2(), r),
             r is Ok ==> r->Ok_0 is Object, // @tobl L2.kind
+            ({ let p = old(self).rv2().pending; let w = ws_run(from(p, 1)) as int;
+               !is_io(r) && at(p, 1 + w) == Some(0x7du8) ==> r is Ok && r->Ok_0 == json_object(Seq::empty()) && final(self).rv2().pending.len() == p.len() - (w + 2) }), // @tobl L2.empty_object
         decreases old(self).rv2().pending.len(), 1int,
 //@@ endfn
 //@@ fn lex.t.read_number = src/json_parser.rs :: trait JsonParserUtils :: fn read_number
@@ -167,6 +195,16 @@ pub trait JsonParserUtils {
             r is Ok ==> r->Ok_0 is Number, // @tobl L2.kind
             // the token consumed is exactly the maximal number token (upper-case exponents included): C01.look
             !is_io(r) ==> final(self).rv2().pending.len() + num_end(old(self).rv2().pending) == old(self).rv2().pending.len(), // @tobl L2.token
+            // C19: a token without fraction and exponent is parsed as an integer (u64 / i64) whenever it is in range — no
+            // detour through a double; everything else is the nearest double, normalised by From<f64>
+            ({ let p = old(self).rv2().pending; let t = text_of(num_text(p));
+               r is Ok ==> {
+                   &&& (num_is_double(p) ==> parse_of::<f64>(t) is Some && r->Ok_0 == json_of_f64(parse_of::<f64>(t)->0))
+                   &&& (!num_is_double(p) && num_sign(p) == 0 && parse_of::<u64>(t) is Some ==> r->Ok_0 == JsonValue::Number(NumberValue::Positive(parse_of::<u64>(t)->0)))
+                   &&& (!num_is_double(p) && num_sign(p) == 1 && parse_of::<i64>(t) is Some ==> r->Ok_0 == JsonValue::Number(NumberValue::Negative(parse_of::<i64>(t)->0)))
+                   &&& (!num_is_double(p) && num_sign(p) == 0 && parse_of::<u64>(t) is None ==> parse_of::<f64>(t) is Some && r->Ok_0 == json_of_f64(parse_of::<f64>(t)->0))
+                   &&& (!num_is_double(p) && num_sign(p) == 1 && parse_of::<i64>(t) is None ==> parse_of::<f64>(t) is Some && r->Ok_0 == json_of_f64(parse_of::<f64>(t)->0))
+               } }), // @tobl L2.number_value
 //@@ endfn
 //@@ fn lex.t.read_string = src/json_parser.rs :: trait JsonParserUtils :: fn read_string
 //@@ ret r
@@ -179,6 +217,7 @@ pub trait JsonParserUtils {
 //@@ ret r
 //@@ header
         ensures !is_io(r), r is Ok ==> r->Ok_0 is Number,
+            r is Ok ==> parse_of::<f64>(str@) is Some && r->Ok_0 == json_of_f64(parse_of::<f64>(str@)->0), // @tobl L2.double
 //@@ endfn
 }
 
@@ -192,6 +231,14 @@ impl<R: Read> JsonParserUtils for Reader<R> {
             rview(self).ok, self.name() == old(self).name(),
             advance(old(self).pending(), self.pending()),
                 self.cur() is Some,
+                self.pending().len() + it.index@ == old(self).pending().len(),
+                it.seq().len() == N, forall|j: int| 0 <= j < N ==> *(#[trigger] it.seq()[j]) == chars@[j],
+                forall|j: int| 1 <= j <= it.index@ ==> (#[trigger] old(self).pending()[j]) == Some(chars@[j - 1]),
+//@@ before "if ch != *expected {"
+                    proof {
+                        assert(self.pending() =~= old(self).pending().subrange(it.index@ + 1, old(self).pending().len() as int));
+                        assert(self.pending()[0] == Some(ch));
+                    }
 //@@ endfn
 //@@ fn lex.read_true = src/json_parser.rs :: impl<R: Read> JsonParserUtils for Reader<R> :: fn read_true
 //@@ safety C01 C05 C16
@@ -213,7 +260,16 @@ impl<R: Read> JsonParserUtils for Reader<R> {
             rview(self).ok, self.name() == old(self).name(),
             advance(old(self).pending(), self.pending()),
                 self.pending().len() < old(self).pending().len(),
+                at(old(self).pending(), 1 + ws_run(from(old(self).pending(), 1)) as int) != Some(0x5du8),
             decreases self.pending().len(),
+//@@ after#1 "self.eat_whitespace()?;"
+        proof {
+            let p = old(self).pending();
+            let p1 = from(p, 1);
+            let w = ws_run(p1) as int;
+            assert(self.pending() =~= from(p, 1 + w));
+            assert(self.pending().len() > 0 ==> self.pending()[0] == p[1 + w]);
+        }
 //@@ endfn
 //@@ fn lex.read_object = src/json_parser.rs :: impl<R: Read> JsonParserUtils for Reader<R> :: fn read_object
 //@@ safety C01 C05 C06 C16
@@ -225,11 +281,28 @@ impl<R: Read> JsonParserUtils for Reader<R> {
             rview(self).ok, self.name() == old(self).name(),
             advance(old(self).pending(), self.pending()),
                 self.pending().len() < old(self).pending().len(),
+                at(old(self).pending(), 1 + ws_run(from(old(self).pending(), 1)) as int) != Some(0x7du8),
             decreases self.pending().len(),
+//@@ after#1 "self.eat_whitespace()?;"
+        proof {
+            let p = old(self).pending();
+            let p1 = from(p, 1);
+            let w = ws_run(p1) as int;
+            assert(self.pending() =~= from(p, 1 + w));
+            assert(self.pending().len() > 0 ==> self.pending()[0] == p[1 + w]);
+        }
+//@@ before#1 "return Ok(JsonValue::Object(map));"
+            proof {
+                assert(map.entries() =~= Seq::<(String, JsonValue)>::empty());
+                assert(JsonValue::Object(map) == json_object(map.entries()));
+            }
 //@@ endfn
 //@@ fn lex.read_number = src/json_parser.rs :: impl<R: Read> JsonParserUtils for Reader<R> :: fn read_number
 //@@ safety C01 C05 C06 C16 C19
 //@@ rewrite try_io
+//@@ attr
+#[verifier::spinoff_prover]
+#[verifier::rlimit(400)]
 //@@ body-start
         let ghost p0 = self.pending();
         proof {
@@ -241,6 +314,8 @@ impl<R: Read> JsonParserUtils for Reader<R> {
         proof {
             assert(advance(p0, self.pending()));
             assert(self.pending().len() == p0.len() - num_sign(p0));
+            assert(negative == (num_sign(p0) == 1));
+            assert(chars@ =~= (if num_sign(p0) == 1 { seq![0x2du8] } else { Seq::<u8>::empty() }));
         }
 //@@ after "let mut double = false;"
         let ghost p2 = self.pending();
@@ -248,6 +323,9 @@ impl<R: Read> JsonParserUtils for Reader<R> {
             assert(advance(p0, p2));
             assert(p2.len() == p0.len() - num_int_end(p0));
             assert(p2.len() > 0 ==> p2[0] == p0[num_int_end(p0)]);
+            let p1 = from(p0, num_sign(p0));
+            assert(p1.subrange(0, digit_run(p1) as int) =~= p0.subrange(num_sign(p0), num_int_end(p0)));
+            assert(chars@ =~= num_text_int(p0));
         }
 //@@ after#1 "double = true;"
             proof {
@@ -259,6 +337,7 @@ impl<R: Read> JsonParserUtils for Reader<R> {
             proof {
                 assert(advance(p0, self.pending()));
                 assert(self.pending().len() == p0.len() - (num_int_end(p0) + 1));
+                assert(chars@ =~= num_text_int(p0).push(0x2eu8));
             }
 //@@ before "Some(b'e' | b'E')"
         let ghost pf = self.pending();
@@ -267,6 +346,12 @@ impl<R: Read> JsonParserUtils for Reader<R> {
             assert(advance(p0, pf));
             assert(pf.len() == p0.len() - num_frac_end(p0));
             assert(pf.len() > 0 ==> pf[0] == p0[num_frac_end(p0)]);
+            if num_has_frac(p0) {
+                let p3 = from(p0, num_int_end(p0) + 1);
+                assert(p3.subrange(0, digit_run(p3) as int) =~= p0.subrange(num_int_end(p0) + 1, num_frac_end(p0)));
+            }
+            assert(chars@ =~= num_text_frac(p0));
+            assert(double == num_has_frac(p0));
         }
 //@@ after#2 "double = true;"
             proof {
@@ -285,12 +370,20 @@ impl<R: Read> JsonParserUtils for Reader<R> {
             proof {
                 assert(advance(p0, self.pending()));
                 assert(self.pending().len() == p0.len() - num_exp_digits_at(p0));
+                let t = num_text_frac(p0).push(0x45u8);
+                assert(chars@ =~= (if at(p0, num_frac_end(p0) + 1) == Some(0x2du8) { t.push(0x2du8) } else { t }));
             }
 //@@ before "let str = match String::from_utf8(chars) {"
         proof {
             assert(!num_has_exp(p0) ==> self.pending() == pf);
             assert(advance(p0, self.pending()));
             assert(self.pending().len() == p0.len() - num_end(p0));
+            if num_has_exp(p0) {
+                let p4 = from(p0, num_exp_digits_at(p0));
+                assert(p4.subrange(0, digit_run(p4) as int) =~= p0.subrange(num_exp_digits_at(p0), num_end(p0)));
+            }
+            assert(chars@ =~= num_text(p0));
+            assert(double == num_is_double(p0));
         }
 //@@ endfn
 //@@ fn lex.read_string = src/json_parser.rs :: impl<R: Read> JsonParserUtils for Reader<R> :: fn read_string
@@ -329,6 +422,14 @@ impl<R: Read> JsonParser for Reader<R> {
 //@@ rewrite try_io
 //@@ header
         decreases old(self).rv().pending.len(), 2int,
+//@@ after "self.eat_whitespace()?;"
+        proof {
+            let p = old(self).pending();
+            let w = ws_run(p) as int;
+            assert(self.pending() =~= from(p, w));
+            assert(self.pending().len() > 0 ==> self.pending()[0] == p[w]);
+            assert(self.pending().len() == 0 ==> w == p.len());
+        }
 //@@ endfn
 }
 
